@@ -203,11 +203,20 @@ struct C03 : public Driver {
                 if (!d || eh.failed) { r.status = -1; r.err = eh.msg.empty() ? "parse failed" : eh.msg; }
                 else {
                     XPathEvaluator ev(mm); XalanNode* ctx = d->getDocumentElement() ? (XalanNode*)d->getDocumentElement() : (XalanNode*)d;
+                    // a compiled XPath the caller keeps: whatever happens to later expressions of the same evaluator, it must go on giving the same answer
+                    XPath* kept = ev.createXPath(xs("concat(count(//*), '-', name(/*), '-', count(//@k[. = 'k1']), '-', string(12.5 + 1))", mm).c_str()); std::string keptBefore, keptAfter;
+                    { XObjectPtr v = ev.evaluate(sup, ctx, *kept, d->getDocumentElement()); if (!v.null()) keptBefore = toUtf8(v->str(ev.getExecutionContext())); }
+                    {   // the operation's own expression, compiled first and then evaluated from the string as well (either may fail)
+                        XformOut ign; try { XPath* xp = ev.createXPath(xs(o.str("expr"), mm).c_str()); ev.destroyXPath(xp); } SIM_CATCH_ALL(ign)
+                        try { XObjectPtr v = ev.evaluate(sup, ctx, *kept, d->getDocumentElement()); if (!v.null()) keptAfter = toUtf8(v->str(ev.getExecutionContext())); } SIM_CATCH_ALL(ign)
+                        if (keptAfter != keptBefore) res.violate("kept-xpath-changed", ign.threw ? "after-failed-create" : "after-create", "a compiled XPath kept by the caller evaluated to [" + keptBefore + "] before and [" + keptAfter + "] after createXPath() of [" + o.str("expr").substr(0, 80) + "]");
+                    }
                     {   // the returned object is only valid until the next evaluation (documented), so scope it
                         XObjectPtr v = ev.evaluate(sup, ctx, xs(o.str("expr"), mm).c_str(), d->getDocumentElement());
                         if (!v.null()) r.out = toUtf8(v->str(ev.getExecutionContext()));
                     }
                     NodeRefList nl(mm); ev.selectNodeList(nl, sup, ctx, xs("//*", mm).c_str(), d->getDocumentElement()); r.out += "|" + std::to_string(nl.getLength());
+                    ev.destroyXPath(kept);
                 }
                 if (count && (o.boolean("faulted") || !f.kind.empty())) res.count("fault:expr-corrupt");
             } else if (k == "xpath-capi") {
@@ -217,8 +226,11 @@ struct C03 : public Driver {
                     // NUL bytes would end the C string early: a legitimate input as far as the API is concerned
                     int b = 0; st = XalanEvaluateXPathExpressionAsBoolean(h, o.str("expr").c_str(), "UTF-8", seen.c_str(), &b);
                     r.status = st; r.out = std::to_string(b); if (st != 0) r.err = "code " + std::to_string(st);
+                    XalanXPathHandle keptH = nullptr; int b0 = -1, b1 = -1; int stK = XalanCreateXPath(h, "count(/*) = 1 and not(/nosuch)", "UTF-8", &keptH);
+                    if (stK == 0) XalanEvaluateXPathAsBoolean(h, keptH, GOOD_DOC, &b0);
                     XalanXPathHandle xh = nullptr; int st2 = XalanCreateXPath(h, o.str("expr").c_str(), "UTF-8", &xh);
                     if (st2 == 0) { int b2 = 0; XalanEvaluateXPathAsBoolean(h, xh, plan.str("doc").c_str(), &b2); XalanDestroyXPath(h, xh); }
+                    if (stK == 0) { int stE = XalanEvaluateXPathAsBoolean(h, keptH, GOOD_DOC, &b1); if (stE != 0 || b0 != b1) res.violate("kept-xpath-changed", st2 == 0 ? "capi:after-create" : "capi:after-failed-create", "a compiled XPath kept through the C API gave " + std::to_string(b0) + " before and " + std::to_string(b1) + " (status " + std::to_string(stE) + ") after XalanCreateXPath of [" + o.str("expr").substr(0, 80) + "]"); XalanDestroyXPath(h, keptH); }
                     XalanDestroyXPathEvaluator(h);
                 } else { r.status = st; r.err = "cannot create evaluator"; }
                 if (count && o.boolean("faulted")) res.count("fault:expr-corrupt");
